@@ -9,7 +9,7 @@ here="$(cd "$(dirname "$0")/.." && pwd)"
 src="/tmp/seed/$id/seeded"
 [ -f "$src/patch.diff" ] || { echo "no $src/patch.diff"; exit 2; }
 copy=$(mktemp -d /tmp/vf-seeded-XXXXXX)
-git -C /repo archive HEAD | tar -x -C "$copy"
+git -C /repo archive "${VF_BASE:-HEAD}" | tar -x -C "$copy"
 out="$src/eval.txt"; : > "$out"
 log() { echo "$@" | tee -a "$out"; }
 mkdir -p "$copy/seeded" && cp "$src/demo.py" "$copy/seeded/demo.py" 2>/dev/null
